@@ -612,11 +612,12 @@ def r5_exec(cx, tables):
     is_self = lambda r: r[0] == "param" and r[1] == 1 and not r[3]
     for name in ("init", "run", "next"):
         cs = [c for c in f.calls() if re.search(r"ActTask>::%s$|ActTask::%s$" % (name, name), c.q) or c.q.endswith("Arc<acts::scheduler::process::task::Task>>::%s" % name)]
-        if len(cs) != 1:
-            raise Anchor("exec: expected one call of %s, found %d" % (name, len(cs)))
-        pre = guard_pre(f, cs[0].b, is_self)
-        cx.ob("C02.R5", "exec:%s" % name, not (pre & T.TERMINAL),
-              "`exec` reaches `%s` only when the task is not terminal (guarded pre-state %s)" % (name, sorted(pre)), cs[0].loc)
+        if not cs:
+            raise Anchor("exec: expected a call of %s, found none" % name)
+        for i_, c_ in enumerate(cs):
+            pre = guard_pre(f, c_.b, is_self)
+            cx.ob("C02.R5", "exec:%s%s" % (name, "" if i_ == 0 else "#%d" % (i_ + 1)), not (pre & T.TERMINAL),
+                  "`exec` reaches `%s` only when the task is not terminal (guarded pre-state %s)" % (name, sorted(pre)), c_.loc)
     # init body: dispatch on node kind only under state None
     fi = m.one(ARC_TASK_IMPL + r"init$")
     is_ctx_task = lambda r: (r[0] == "call" and r[1] == T.Q_CTX_TASK) or (r[0] == "param" and r[1] == 1)
